@@ -42,6 +42,7 @@ func runC15(c *Ctx) {
 	c15StateWriters(c)
 	c14R6As(c, c.R.Rule("R7", "K6 (= C14.R6) a rename is reversible: pipeline.Service.Update frees the OLD name (read before the config is replaced) and reserves the new one — otherwise importing A → B → A, or rolling back a failed renaming import, is refused", 2))
 	c15R8(c)
+	c15R10(c)
 	rollbackSnapshotAs(c, c.R.Rule("R9", "K6/K3 (= C13.R10) a failed live apply leaves the old configuration: the config the in-place rollback re-imports is a snapshot exported before the desired config was committed", 3))
 }
 
@@ -584,4 +585,52 @@ func liveRoot(v ssa.Value, depth int) bool {
 		}
 	}
 	return false
+}
+
+// c15R10: the action builder looks at every entity of both configs. buildForOldConfig / buildForNewConfig walk the
+// connectors and, nested, their processors; a shortcut that leaves a loop early or skips the nested loop (or a lookup)
+// for some elements produces a plan that "succeeds" while an old processor is never deleted / a new one never created:
+// the stored entities do not equal the configuration.
+func c15R10(c *Ctx) {
+	r := c.R.Rule("R10", "K4 the diff looks at every entity: in actionsBuilder.buildForOldConfig / buildForNewConfig no loop over connectors or processors is left early, and every iteration reaches the nested processor loop and each find…ByID lookup of its body (no shortcut skips the comparison for some elements)", 10)
+	finds := Set(c.Fn(r, pProv, "(actionsBuilder).findProcessorByID"), c.Fn(r, pProv, "(actionsBuilder).findConnectorByID"))
+	for _, name := range []string{"(actionsBuilder).buildForOldConfig", "(actionsBuilder).buildForNewConfig"} {
+		fn := c.SSA(r, pProv, name)
+		if fn == nil {
+			continue
+		}
+		loops := kit.Loops(fn)
+		c.R.Check(len(loops) >= 3, r, name+": loops over connectors, their processors and the pipeline's processors", c.Pos(fn.Pos()), "found", "fewer than three loops found", true)
+		for _, l := range loops {
+			at := c.Pos(posOfBlock(l.Header))
+			ee := l.EarlyExits()
+			c.R.Check(len(ee) == 0, r, name+": loop is not left early", at, "only the loop condition ends it", "a loop over the configuration's entities can be left before all elements were looked at (break/return in its body): the remaining entities get no create/update/delete action, the import 'succeeds' without converging", true)
+			for _, o := range loops {
+				if o.Header != l.Header && l.Blocks[o.Header] {
+					c.R.Check(l.EveryIterationPasses(o.Header), r, name+": every iteration reaches the nested loop", at, "ok", "an iteration of the connector loop can skip the nested loop over the connector's processors: a processor that was removed from (or added to) a kept connector gets no action — it stays in the processor service and the store (or is never created) although the import succeeds and a re-plan is empty", true)
+				}
+			}
+			for _, call := range kit.CallsTo(fn, finds) {
+				if l.Direct(call, loops) {
+					c.R.Check(l.EveryIterationPasses(call.Block()), r, name+": every iteration performs the lookup", c.Pos(call.Pos()), "ok", "an iteration can skip the lookup of its element in the other configuration: the element is neither compared nor deleted/created", true)
+				}
+			}
+		}
+	}
+}
+
+func posOfBlock(b *ssa.BasicBlock) token.Pos {
+	for _, in := range b.Instrs {
+		if in.Pos() != token.NoPos {
+			return in.Pos()
+		}
+	}
+	for _, s := range b.Succs {
+		for _, in := range s.Instrs {
+			if in.Pos() != token.NoPos {
+				return in.Pos()
+			}
+		}
+	}
+	return b.Parent().Pos()
 }
